@@ -293,3 +293,13 @@ Proof.
   unfold single_threadb, single_thread. intros H o t Hi Ht. rewrite forallb_forall in H.
   specialize (H o Hi). rewrite Ht in H. apply Z.eqb_eq in H. exact H.
 Qed.
+
+(* non-vacuity: a history that meets the hypotheses of the conservation theorem, with a line dropped by disable(),
+   a disabled period of 1000 ticks and clock reads that cost a tick: 10 ticks reported, 22 enabled, 1022 elapsed *)
+Definition nv_ops : list op :=
+  [G 0 0; E 0; L 0 0 0 0 1; A 5; L 0 0 0 0 2; A 7; D 0; A 1000; E 0; L 0 0 0 0 2; A 3; R 0 0 0 0 2; D 0].
+Example conserved_nonvacuous :
+  no_collision leaky_codes nv_ops = true /\ single_threadb 0 nv_ops = true
+  /\ reported_total leaky_codes 1 nv_ops 0 = 10 /\ enabled_time leaky_codes 1 0 nv_ops = 22
+  /\ anow (a_run leaky_codes 1 0 nv_ops) = 1022.
+Proof. vm_compute. repeat split. Qed.
